@@ -5,7 +5,7 @@ CFG = {'level': 'exploration',
  'technique': 'runtime monitoring of the Create -> own reader -> CheckZip -> Unzip pipeline in a per-case file-system sandbox; oracle = own archive '
               'reader (archive/zip) + own restriction checker and module path/version rules (ref/refzip, written from the doc comments) + byte '
               'comparison of the extracted tree with the files CheckFiles reports valid + snapshot of everything around the target directory',
- 'level_text': 'For 6*10^3 (quick) / 3*10^5 (thorough) generated file lists (<= 12 / 40 files; unicode and case variants incl. the Kelvin sign and '
+ 'level_text': 'For 1.8*10^4 (quick) / 3*10^5 (thorough) generated file lists (<= 12 / 40 files; unicode and case variants incl. the Kelvin sign and '
                'sharp s, reserved names, unclean/absolute paths, duplicates, file-vs-directory clashes, vendor and nested-module layouts, symlink '
                'and irregular modes through a fake FileInfo, go.mod with/without/unparsable go line) and valid or rule-breaking module '
                'path/version pairs: Create succeeds exactly when CheckFiles reports no error (honest sizes, valid module), never for an invalid '
